@@ -6,7 +6,7 @@
      every other name: equivalent values
    The semantic core is ElemCommute.pwn_transpose, applied node by node in graph order. *)
 From Coq Require Import ZArith String List Bool Arith Lia.
-From J2O Require Import PyLib Tensor Graph Redirect Reshape ElemCommute ChainSim ReshapePairPass ChainFacts C02Opt ElemSem TransposePairPass.
+From J2O Require Import PyLib Tensor Graph Redirect Preserve Reshape ElemCommute ChainSim ReshapePairPass ChainFacts C02Opt ElemSem TransposePairPass.
 From J2OGen Require Import GenCast GenOpt.
 Import ListNotations.
 
@@ -179,6 +179,8 @@ Section RegionSound.
   Hypothesis Hrank : forall n u v, In n (r_es r) -> str_in (nop n) pw_ops_all = true -> In u (n_ins n) -> ef u = Some v ->
     length (shape v) <= length p.
   Hypothesis Hbc : forall n vs, In n (r_es r) -> str_in (nop n) pw_ops_all = true -> lookups V ef (n_ins n) = Some vs -> operands_ok vs.
+  Hypothesis Huni_old : forall n vs, In n (tg_nodes g) -> is_elem n = true -> str_in (nop n) pw_ops_all = true ->
+    lookups V ef (n_uses n) = Some vs -> operands_ok vs.
 
   Let Hssa : ssa V (tg_nodes g) e := tadm_ssa _ _ _ _ Hadm.
   Let Hnd : NoDup (defs (tg_nodes g)) := proj1 Hssa.
@@ -310,23 +312,22 @@ Section RegionSound.
   Qed.
 
   (* ---- a kept node outside the region *)
-  Lemma rother_step m em em' e1 : In m (tg_nodes g) -> region_keep r m = true -> memn m (r_es r) = false ->
-    (forall y, In y (n_outs m) -> em y = None) -> NoDup (n_outs m) ->
-    Inv em em' -> stepg em m = Some e1 -> exists e1', stepg em' (region_tr r m) = Some e1' /\ Inv e1 e1'.
+  Lemma other_facts m : In m (tg_nodes g) -> region_keep r m = true -> memn m (r_es r) = false ->
+    (forall x, In x (n_uses m) -> ~ In x Dead) /\ (forall x, In x (n_uses m) -> ~ In x D) /\
+    (forall y, In y (n_outs m) -> ~ In y D /\ ~ In y Dead /\ rhoR y = y) /\ region_tr r m = subst_map rhoR m.
   Proof.
-    intros Hm Hk Hnes Hfresh Hndo Hi Hs.
+    intros Hm Hk Hnes.
     assert (Hkeep : ~ In m (r_outs r) /\ ~ In m (r_dead r)).
     { unfold region_keep in Hk. apply andb_prop in Hk as [H1 H2]. apply negb_true_iff in H1, H2.
       split; intro H; apply memn_In in H; congruence. }
     destruct Hkeep as [HnO HnDead].
     assert (HusesDead : forall x, In x (n_uses m) -> ~ In x Dead).
     { intros x Hx Hd. destruct (Dead_owner x Hd) as (t & Htd & _ & <-). destruct (rf_dead _ _ _ _ Hrf t Htd) as (_ & _ & H). exact (H m Hm Hk Hnes Hx). }
-    assert (HusesD : forall x, In x (n_uses m) -> ~ In x D).
-    { intros x Hx Hd. unfold n_uses in Hx. apply in_app_or in Hx as [Hx|Hx].
-      - destruct (rf_cons _ _ _ _ Hrf x m Hd Hm Hx) as [H|H]; [apply memn_In in H; congruence | contradiction].
-      - destruct (rf_unobs _ _ _ _ Hrf x Hd) as [_ H]. exact (H m Hm Hx). }
-    assert (Houts : forall y, In y (n_outs m) -> ~ In y D /\ ~ In y Dead /\ rhoR y = y).
-    { intros y Hy.
+    split; [exact HusesDead|]. split; [|split].
+    - intros x Hx Hd. unfold n_uses in Hx. apply in_app_or in Hx as [Hx|Hx].
+      + destruct (rf_cons _ _ _ _ Hrf x m Hd Hm Hx) as [H|H]; [apply memn_In in H; congruence | contradiction].
+      + destruct (rf_unobs _ _ _ _ Hrf x Hd) as [_ H]. exact (H m Hm Hx).
+    - intros y Hy.
       assert (H1 : ~ In y D).
       { intro Hd. destruct (D_owner g r p q Hrf y Hd) as (n & Hn & _ & Hnin & Ho).
         assert (n = m) by (apply (owner_unique g Hnd n m y); auto). subst n. apply memn_In in Hn. congruence. }
@@ -335,9 +336,15 @@ Section RegionSound.
         assert (t = m) by (apply (owner_unique g Hnd t m (out_of t)); auto). subst t. contradiction. }
       repeat split; auto. rewrite (rhoR_plain _ H2). apply (ren_out_other g r p q Hrf). intros t Ht E.
       destruct (O_owner g r p q Hrf t Ht) as (Htin & Hto & _).
-      assert (t = m) by (apply (owner_unique g Hnd t m (out_of t)); auto; now rewrite E). subst t. contradiction. }
-    assert (Htr_eq : region_tr r m = subst_map rhoR m).
-    { unfold region_tr. rewrite Hnes. apply subst_map_ext. intros x Hx. symmetry. apply rhoR_plain. now apply HusesDead. }
+      assert (t = m) by (apply (owner_unique g Hnd t m (out_of t)); auto; now rewrite E). subst t. contradiction.
+    - unfold region_tr. rewrite Hnes. apply subst_map_ext. intros x Hx. symmetry. apply rhoR_plain. now apply HusesDead.
+  Qed.
+
+  Lemma rother_step m em em' e1 : In m (tg_nodes g) -> region_keep r m = true -> memn m (r_es r) = false ->
+    (forall y, In y (n_outs m) -> em y = None) -> NoDup (n_outs m) ->
+    Inv em em' -> stepg em m = Some e1 -> exists e1', stepg em' (region_tr r m) = Some e1' /\ Inv e1 e1'.
+  Proof.
+    intros Hm Hk Hnes Hfresh Hndo Hi Hs. destruct (other_facts m Hm Hk Hnes) as (HusesDead & HusesD & Houts & Htr_eq).
     rewrite Htr_eq.
     apply (rinv_kept_step V teq sem rhoR relR em em' m e1 Hi Hs); auto.
     - intros y Hy. now destruct (Houts y Hy) as (_ & _ & H).
@@ -503,22 +510,131 @@ Section RegionSound.
     - intro H. destruct (O_owner g r p q Hrf n H) as (_ & _ & H'). congruence.
   Qed.
 
+  Lemma region_step_all pre n post em em' e1 : tg_nodes g = pre ++ n :: post -> evalg pre e = Some em ->
+    (forall x a, em x = Some a -> ef x = Some a) -> Inv em em' -> stepg em n = Some e1 ->
+    (forall x a, e1 x = Some a -> ef x = Some a) ->
+    if region_keep r n then exists e1', stepg em' (region_tr r n) = Some e1' /\ Inv e1 e1' else Inv e1 em'.
+  Proof.
+    intros Hsplit Hpre Hle Hi Hs Hle1.
+    destruct (fresh_at V sem _ _ _ _ _ _ Hssa Hsplit Hpre) as [Hfresh Hndo].
+    assert (Hn : In n (tg_nodes g)) by (rewrite Hsplit; apply in_or_app; right; now left).
+    destruct (memn n (r_es r)) eqn:Ees.
+    - apply memn_In in Ees. rewrite (es_kept n Ees). apply (es_step pre (n :: post) n em em' e1); auto.
+    - destruct (region_keep r n) eqn:Hk.
+      + apply (rother_step n em em' e1); auto.
+      + unfold region_keep in Hk. apply andb_false_iff in Hk as [Hk|Hk]; apply negb_false_iff in Hk; apply memn_In in Hk.
+        * destruct (O_owner g r p q Hrf n Hk) as (_ & Ho & _). apply (outT_step em em' n e1); auto. apply Hfresh. rewrite Ho. now left.
+        * destruct (T_owner g r p q Hrf n (dead_in_ts g r p q Hrf n Hk)) as (_ & Ho & _). apply (dead_step em em' n e1); auto. apply Hfresh. rewrite Ho. now left.
+  Qed.
+
   Lemma region_run : refinesg (tg_graph g) (tg_graph (apply_region g r)) e.
   Proof.
     unfold apply_region, tg_graph at 2. cbn [tg_nodes tg_outputs].
     apply (sim_refines V teq sem Inv (region_keep r) (region_tr r) (tg_nodes g) (tg_outputs g) (map (ren_out r) (tg_outputs g)) e Hssa rinv_init).
     intros ef0 Hev0. rewrite Hev in Hev0. injection Hev0 as <-. split.
-    - intros pre n post em em' e1 Hsplit Hpre Hle Hi Hs Hle1.
-      destruct (fresh_at V sem _ _ _ _ _ _ Hssa Hsplit Hpre) as [Hfresh Hndo].
-      assert (Hn : In n (tg_nodes g)) by (rewrite Hsplit; apply in_or_app; right; now left).
-      destruct (memn n (r_es r)) eqn:Ees.
-      + apply memn_In in Ees. rewrite (es_kept n Ees). apply (es_step pre (n :: post) n em em' e1); auto.
-      + destruct (region_keep r n) eqn:Hk.
-        * apply (rother_step n em em' e1); auto.
-        * unfold region_keep in Hk. apply andb_false_iff in Hk as [Hk|Hk]; apply negb_false_iff in Hk; apply memn_In in Hk.
-          -- destruct (O_owner g r p q Hrf n Hk) as (_ & Ho & _). apply (outT_step em em' n e1); auto. apply Hfresh. rewrite Ho. now left.
-          -- destruct (T_owner g r p q Hrf n (dead_in_ts g r p q Hrf n Hk)) as (_ & Ho & _). apply (dead_step em em' n e1); auto. apply Hfresh. rewrite Ho. now left.
+    - exact region_step_all.
     - intros ef' o Hi Hl. now apply routs_related.
+  Qed.
+
+  (* ---- the final environment of the rewritten graph, and the preservation of what the pass reads *)
+  Lemma region_env : exists ef', evalg (tg_nodes (apply_region g r)) e = Some ef' /\ Inv ef ef'.
+  Proof. exact (sim_env V sem Inv (region_keep r) (region_tr r) (tg_nodes g) e ef Hssa rinv_init Hev region_step_all). Qed.
+
+  Lemma region_tr_outs n : n_outs (region_tr r n) = n_outs n.
+  Proof. unfold region_tr. destruct (memn n (r_es r)); reflexivity. Qed.
+  Lemma region_tr_op n : n_op (region_tr r n) = n_op n.
+  Proof. unfold region_tr. destruct (memn n (r_es r)); reflexivity. Qed.
+
+  (* a name defined in the rewritten run is an input or the output of a kept node: it is not renamed, and its old and
+     new values have the same "one-element" status *)
+  Lemma kept_out_plain m y : In m (tg_nodes g) -> region_keep r m = true -> In y (n_outs m) -> rhoR y = y /\ ~ In y Dead.
+  Proof.
+    intros Hm Hk Hy. destruct (memn m (r_es r)) eqn:Ees.
+    - apply memn_In in Ees. destruct (rf_es _ _ _ _ Hrf m Ees) as (_ & Ho & _). rewrite Ho in Hy. destruct Hy as [<-|[]].
+      assert (HyD : In (out_of m) D) by (unfold D, outs_of; apply in_map_iff; eauto). split; [|now apply D_not_Dead].
+      rewrite (rhoR_plain _ (D_not_Dead _ HyD)). apply (ren_out_other g r p q Hrf). intros t Ht. exact (D_not_Oout g r p q Hnd Hrf _ t HyD Ht).
+    - destruct (other_facts m Hm Hk Ees) as (_ & _ & Houts & _). destruct (Houts y Hy) as (_ & H2 & H3). auto.
+  Qed.
+
+  Lemma new_defined_plain ef' x w : evalg (tg_nodes (apply_region g r)) e = Some ef' -> Inv ef ef' -> ef' x = Some w ->
+    exists v, ef x = Some v /\ relR x v w /\ ~ In x Dead.
+  Proof.
+    intros Hev' Hi Hx.
+    assert (Hplain : rhoR x = x /\ ~ In x Dead).
+    { assert (Hdef : ef' x <> None) by congruence.
+      destruct (eval_dom V sem _ _ _ _ Hev' Hdef) as [He|Hd].
+      - destruct (e x) as [v0|] eqn:Ex; [|congruence]. destruct (inputs_plain x v0 Ex) as (_ & H2 & H3). auto.
+      - unfold defs in Hd. apply in_flat_map in Hd as (m' & Hm' & Hy). cbn [apply_region tg_nodes] in Hm'.
+        apply in_map_iff in Hm' as (m & <- & Hm). apply filter_In in Hm as [Hm Hk]. rewrite region_tr_outs in Hy.
+        exact (kept_out_plain m x Hm Hk Hy). }
+    destruct Hplain as [Hrho HnDead]. destruct Hi as [Hi1 Hi2].
+    assert (Hold : ef x <> None) by (apply Hi2; congruence).
+    destruct (ef x) as [v|] eqn:Ev; [|congruence]. destruct (Hi1 _ _ Ev) as (w0 & Ew0 & Hr). rewrite Hrho, Hx in Ew0. injection Ew0 as <-.
+    exists v. auto.
+  Qed.
+
+  Lemma relR_all1 x v w : ~ In x Dead -> relR x v w -> all1 (shape v) = all1 (shape w).
+  Proof.
+    intros HnD Hr. destruct (in_dec Nat.eq_dec x D) as [HD|HD].
+    - destruct (trel_facts p v w Hp (relR_D _ _ _ HD Hr)) as (H & _). exact H.
+    - pose proof (relR_teq _ _ _ HD HnD Hr) as Ht. now rewrite (proj1 Ht).
+  Qed.
+
+  (* the operands of a region member stay "one common shape or one element" in the other layout *)
+  Lemma trel_operands_ok n vs vs' : In n (r_es r) -> str_in (nop n) pw_ops_all = true -> lookups V ef (n_ins n) = Some vs ->
+    Forall2 (trel p) vs vs' -> operands_ok vs'.
+  Proof.
+    intros Hn Hop Hl Htrel. pose proof (Hbc n vs Hn Hop Hl) as Hok.
+    destruct (forallb (fun v => all1 (shape v)) vs) eqn:Eall.
+    - assert (Hall' : Forall (fun w => all1 (shape w) = true) vs').
+      { rewrite forallb_forall in Eall. clear - Htrel Eall Hp. induction Htrel as [|v w l l' H _ IH]; constructor.
+        - destruct (trel_facts p v w Hp H) as (Ha & _). rewrite <- Ha. apply Eall. now left.
+        - apply IH. intros x Hx. apply Eall. now right. }
+      unfold operands_ok. rewrite Forall_forall in *. intros w Hw. left. now apply Hall'.
+    - assert (Hex : Exists (fun v => length (shape v) = length p) vs).
+      { assert (Hne : exists v, In v vs /\ all1 (shape v) = false).
+        { clear - Eall. induction vs as [|v l IH]; simpl in Eall; [discriminate|]. destruct (all1 (shape v)) eqn:E.
+          - destruct (IH Eall) as (v0 & H0 & H1). exists v0. split; auto. now right.
+          - exists v. split; auto. now left. }
+        destruct Hne as (v & Hv & Hnv). apply Exists_exists. exists v. split; auto.
+        assert (Hpair : exists w, trel p v w).
+        { clear - Htrel Hv. induction Htrel as [|a0 b0 l l' H _ IH]; [contradiction|]. destruct Hv as [<-|Hv]; eauto. }
+        destruct Hpair as (w & [[Ht Hl0]|[H1 _]]); [|congruence]. rewrite (proj1 Ht). simpl. apply gather_length. }
+      assert (Hrk : Forall (fun v => length (shape v) <= length p) vs).
+      { apply (lookups_Forall V _ ef (n_ins n) vs Hl). intros u w Hu Ew. exact (Hrank n u w Hn Hop Hu Ew). }
+      exact (proj1 (pwn_transpose (F ""%string []) p vs vs' Hp Htrel Hex Hrk Hok)).
+  Qed.
+
+  Theorem region_admissible : tadmissible (apply_region g r) e /\ uniform_operands A sem (apply_region g r) e.
+  Proof.
+    destruct region_env as (ef' & Hev' & Hi). split; [constructor|].
+    - cbn [apply_region tg_nodes]. apply ssa_sim; auto. exact region_tr_outs.
+    - intros ef2 x w Hev2 Hsc Hx. rewrite Hev' in Hev2. injection Hev2 as <-.
+      destruct (new_defined_plain ef' x w Hev' Hi Hx) as (v & Ev & Hr & HnD).
+      rewrite <- (relR_all1 x v w HnD Hr). exact (tadm_scalar _ _ _ _ Hadm ef x v Hev Hsc Ev).
+    - intros ef2 n' vs' Hev2 Hn' Hel Hop Hl'. rewrite Hev' in Hev2. injection Hev2 as <-.
+      cbn [apply_region tg_nodes] in Hn'. apply in_map_iff in Hn' as (m & <- & Hm). apply filter_In in Hm as [Hm Hk].
+      assert (Hel_m : is_elem m = true) by (unfold is_elem, nop in *; now rewrite region_tr_op in Hel).
+      assert (Hop_m : str_in (nop m) pw_ops_all = true) by (unfold nop in *; now rewrite region_tr_op in Hop).
+      destruct (memn m (r_es r)) eqn:Ees.
+      + apply memn_In in Ees. destruct (rf_es _ _ _ _ Hrf m Ees) as (_ & _ & Hcaps & _).
+        destruct (eval_consistent V sem _ _ _ m Hssa Hev Hm) as (vs & o & Hl & _ & _).
+        unfold n_uses in Hl. rewrite Hcaps, app_nil_r in Hl.
+        destruct (es_operands (tg_nodes g) [] ef ef' m (eq_sym (app_nil_r _)) Hev (fun y a0 H => H) Hi Ees (n_ins m) vs (fun u H => H) Hl)
+          as (vs2 & Hl2 & Htrel).
+        assert (Huses : n_uses (region_tr r m) = map (ren_in r) (n_ins m)).
+        { unfold region_tr, n_uses. rewrite (proj2 (memn_In _ _) Ees), Hcaps. cbn [n_ins n_caps map]. now rewrite app_nil_r. }
+        rewrite Huses, Hl2 in Hl'. injection Hl' as <-.
+        exact (trel_operands_ok m vs vs2 Ees Hop_m Hl Htrel).
+      + destruct (other_facts m Hm Hk Ees) as (HusesDead & HusesD & _ & Htr_eq).
+        destruct (eval_consistent V sem _ _ _ m Hssa Hev Hm) as (vs & o & Hl & _ & _).
+        destruct (rinv_lookups V rhoR relR _ _ _ _ Hi Hl) as (vs2 & Hl2 & Hrl).
+        rewrite Htr_eq, n_uses_subst_map, Hl2 in Hl'. injection Hl' as <-.
+        apply (operands_ok_shapes vs vs2).
+        * clear - Hrl HusesD HusesDead. induction Hrl as [|x v w xr vr wr Hx _ IH]; constructor.
+          -- exact (proj1 (relR_teq x v w (HusesD x (or_introl eq_refl)) (HusesDead x (or_introl eq_refl)) Hx)).
+          -- apply IH; intros x0 H0; first [apply HusesD; now right | apply HusesDead; now right].
+        * exact (Huni_old m vs Hm Hel_m Hop_m Hl).
   Qed.
 End RegionSound.
 
@@ -1231,15 +1347,15 @@ Section AddSound.
         split; auto. destruct (a_ts pr Hts) as (H1 & H2 & H3 & H4 & _). destruct (a_T_val pr p H1 H2 H3 H4) as (Ho & _).
         apply producer_spec in Hpr as [_ Hu']. rewrite Ho in Hu'. destruct Hu' as [E|[]]. exact E.
     - intros t Ht. destruct (a_ts t Ht) as (H1 & H2 & H3 & H4 & c & iv & Hc & Hiv & Hpr).
-      destruct (a_T_val t p H1 H2 H3 H4) as (Ho & x & _ & _ & Hx & _). repeat split; auto. exists x. repeat split; auto.
-      + intro HxD. unfold outs_of in HxD. cbn [r add_region r_es] in HxD. apply in_map_iff in HxD as (c' & Ec' & Hc').
-        destruct (a_es_in c' Hc') as (Hin' & _). destruct (a_es_val c' Hc') as (_ & _ & Ho' & _).
-        assert (Hpp : producer (tg_nodes g) x = Some c') by (apply producer_complete; auto; rewrite Ho', Ec'; now left).
-        refine (af_guard _ _ _ _ Haf c iv t x c' Hc Hiv Hpr H2 H3 _ Hpp Hc'). unfold first_in. now rewrite Hx.
-      + cbn [r add_region r_dead outs_of map]. intros [].
+      destruct (a_T_val t p H1 H2 H3 H4) as (Ho & x & _ & _ & Hx & _). repeat split; auto. exists x.
+      split; [exact Hx|]. split; [exact H4|]. split; [|cbn [r add_region r_dead outs_of map]; intros []].
+      intro HxD. unfold outs_of in HxD. cbn [r add_region r_es] in HxD. apply in_map_iff in HxD as (c' & Ec' & Hc').
+      destruct (a_es_in c' Hc') as (Hin' & _). destruct (a_es_val c' Hc') as (_ & _ & Ho' & _).
+      assert (Hpp : producer (tg_nodes g) x = Some c') by (apply producer_complete; auto; rewrite Ho', Ec'; now left).
+      refine (af_guard _ _ _ _ Haf c iv t x c' Hc Hiv Hpr H2 H3 _ Hpp Hc'). unfold first_in. now rewrite Hx.
     - intros t Ht. destruct (a_outs t Ht) as (H1 & H2 & H3 & H4 & c & Hc & Hread).
       destruct (a_T_val t q H1 H2 H3 H4) as (Ho & x & _ & _ & Hx & _). repeat split; auto. exists x. repeat split; auto.
-      rewrite Hx in Hread. destruct Hread as [<-|[]]. unfold outs_of. cbn [r add_region r_es]. apply in_map_iff. eauto.
+      rewrite Hx in Hread. destruct Hread as [E|[]]. rewrite E. unfold outs_of. cbn [r add_region r_es]. apply in_map_iff. eauto.
     - intros t Ht Hto. destruct (a_ts t Ht) as (H1 & H2 & H3 & H4 & c & iv & Hc & Hiv & Hpr).
       destruct (a_T_val t p H1 H2 H3 H4) as (Ho & x & _ & _ & Hx & _).
       destruct (a_outs t Hto) as (_ & _ & _ & _ & c' & Hc' & Hread). rewrite Hx in Hread. destruct Hread as [E|[]].
@@ -1260,4 +1376,174 @@ Section AddSound.
       rewrite Hpp, Hiv. unfold permeq, leqb.
       assert (Hl : forall l, list_eqb Nat.eqb l l = true) by (induction l as [|x l IH]; simpl; [reflexivity | now rewrite Nat.eqb_refl]). apply Hl.
   Qed.
+
+  (* a name is defined before it is read *)
+  Lemma def_before_use pre n post u pr : tg_nodes g = pre ++ n :: post -> In u (n_uses n) -> In pr (tg_nodes g) -> In u (n_outs pr) -> In pr pre.
+  Proof.
+    intros Hsplit Hu Hpr Huo. rewrite Hsplit in Hpr. apply in_app_or in Hpr as [H|H]; auto. exfalso.
+    pose proof Hev as Hev'. rewrite Hsplit, (eval_app V sem) in Hev'. destruct (evalg pre e) as [em|] eqn:Epre; [|discriminate]. simpl in Hev'.
+    destruct (stepg em n) as [e1|] eqn:Es; [|discriminate].
+    assert (Hdef : em u <> None).
+    { unfold step in Es. destruct (lookups V em (n_uses n)) as [vs|] eqn:El; [|discriminate]. exact (lookups_defined V em _ _ u El Hu). }
+    apply Hdef. pose proof (proj1 Hssa) as Hnd0. pose proof (proj2 Hssa) as Hfree.
+    rewrite Hsplit in Hnd0, Hfree. unfold defs in Hnd0, Hfree. rewrite flat_map_app in Hnd0, Hfree.
+    assert (Hud : In u (flat_map n_outs (n :: post))) by (apply in_flat_map; eauto).
+    apply (eval_undefined V sem pre e em u Epre).
+    - apply Hfree. apply in_or_app. now right.
+    - intro Hp. exact (NoDup_app_disj _ _ u Hnd0 Hp Hud).
+  Qed.
+
+  Lemma add_operand_rank (P : node -> Prop) c u v : In c (as_chain st) -> In u (n_ins c) -> ef u = Some v ->
+    (forall pr, In pr (as_chain st) -> In u (n_outs pr) -> P pr) ->
+    (forall pr yv, P pr -> In pr (as_chain st) -> ef (out_of pr) = Some yv -> length (shape yv) <= length p) ->
+    length (shape v) <= length p.
+  Proof.
+    intros Hc Hu Ev HP Hrk. destruct (af_members _ _ _ _ Haf c Hc) as (_ & _ & Hins & _).
+    destruct (Hins u Hu) as (pr & Hpr & [Hin|(HT & pp & Hpp & Hfw)]); apply producer_spec in Hpr as [Hprin Huo].
+    - destruct (a_es_val pr Hin) as (_ & _ & Ho & _). pose proof Huo as Huo'. rewrite Ho in Huo'. destruct Huo' as [E|[]]. subst u.
+      exact (Hrk pr v (HP pr Hin Huo) Hin Ev).
+    - rewrite (af_fwd _ _ _ _ Haf) in Hfw. injection Hfw as <-.
+      assert (Hcaps : n_caps pr = []).
+      { apply (af_caps _ _ _ _ Haf). apply in_or_app. right. apply in_or_app. left. cbn [add_region r_ts]. apply add_ts_spec. right.
+        exists u. repeat split; auto; [apply in_flat_map; eauto | | ].
+        - apply producer_complete; auto.
+        - rewrite Hpp, (af_fwd _ _ _ _ Haf). unfold permeq, leqb.
+          assert (Hl : forall l, list_eqb Nat.eqb l l = true) by (induction l as [|x l IH]; simpl; [reflexivity | now rewrite Nat.eqb_refl]). apply Hl. }
+      destruct (a_T_val pr p Hprin HT Hpp Hcaps) as (Ho & x & vx & vy & Hx & Ex & Ey & Ht & Hl).
+      rewrite Ho in Huo. destruct Huo as [E|[]]. subst u. rewrite Ev in Ey. injection Ey as ->.
+      rewrite (proj1 Ht). simpl. rewrite gather_length. auto.
+  Qed.
+
+  Lemma add_rank_forward : forall pre post, tg_nodes g = pre ++ post -> forall c yv, In c (as_chain st) -> In c pre ->
+    ef (out_of c) = Some yv -> length (shape yv) <= length p.
+  Proof.
+    induction pre as [|n l IH] using rev_ind; intros post Hsplit c yv Hc Hcp Ey; [contradiction|].
+    rewrite <- app_assoc in Hsplit. simpl in Hsplit. apply in_app_or in Hcp as [Hcp|[<-|[]]]; [exact (IH _ Hsplit c yv Hc Hcp Ey)|].
+    destruct (a_es_in n Hc) as (Hnin & Hel & Hcaps & Hadd).
+    destruct (eval_consistent V sem _ _ _ n Hssa Hev Hnin) as (vs & o & Hl & Hs & Hlo).
+    pose proof (Huni ef n vs Hev Hnin Hel (add_is_pw n Hadd) Hl) as Hok.
+    destruct (Hpw _ _ _ _ (add_is_pw n Hadd) Hs Hok) as (y & -> & Hy).
+    destruct (a_es_val n Hc) as (_ & _ & Hno & _). rewrite Hno in Hlo. simpl in Hlo. rewrite Ey in Hlo. injection Hlo as ->.
+    rewrite (proj1 Hy). apply pwn_rank_le.
+    unfold n_uses in Hl. rewrite Hcaps, app_nil_r in Hl.
+    apply (lookups_Forall V _ ef (n_ins n) vs Hl). intros u w Hu Ew.
+    apply (add_operand_rank (fun pr => In pr l) n u w Hc Hu Ew).
+    - intros pr Hpr Huo. destruct (a_es_in pr Hpr) as (Hprin & _). apply (def_before_use l n post u pr Hsplit); auto.
+      unfold n_uses. apply in_or_app. now left.
+    - intros pr yv0 Hprl Hpr E0. exact (IH _ Hsplit pr yv0 Hpr Hprl E0).
+  Qed.
+
+  Lemma add_run : refinesg (tg_graph g) (tg_graph (apply_add g st)) e.
+  Proof.
+    apply (region_run A sem sem_proper Htr F Hpw Fcl Hcl Hcl_type Hacc g r p q e ef Hadm add_region_facts Hev).
+    - intros n u v Hn _ Hu Ev. cbn [r add_region r_es] in Hn.
+      apply (add_operand_rank (fun _ => True) n u v Hn Hu Ev); auto.
+      intros pr yv _ Hpr E0. destruct (a_es_in pr Hpr) as (Hprin & _).
+      apply (add_rank_forward (tg_nodes g) [] (eq_sym (app_nil_r _)) pr yv Hpr Hprin E0).
+    - intros n vs Hn Hop Hl. cbn [r add_region r_es] in Hn. destruct (a_es_in n Hn) as (H1 & H2 & H3 & _).
+      apply (Huni ef n vs Hev H1 H2 Hop). unfold n_uses. now rewrite H3, app_nil_r.
+  Qed.
 End AddSound.
+
+(* ================================================================ every action kind of the pass *)
+(* what remains excluded (exact, decidable on the annotated graph; none of them was ever produced by the real pass on the
+   graphs of the tie, and each is sound in reality — the semantic hypotheses just do not reach them):
+     TForest : a CastLike member whose TYPE operand is not a one-element constant (a region value used as a mere type)
+     TChain  : CastLike(constant, chain value)
+     TDag    : a single-source DAG with elementwise members (the forest phase, which runs first, subsumes it) *)
+Definition proved_kind_all (g : tgraph) (a : taction) : bool :=
+  match a with
+  | TAddChain _ => true
+  | TForest f => castlike_types_scalar g (f_es f)
+  | _ => proved_kind a
+  end.
+
+Section AllKinds.
+  Variable A : Type.
+  Notation V := (tensor A).
+  Variable sem : string -> list nat -> list V -> option (list V).
+  Hypothesis sem_proper : forall op ats vs vs' o, Forall2 teq vs vs' -> sem op ats vs = Some o ->
+    exists o', sem op ats vs' = Some o' /\ Forall2 teq o o'.
+  Hypothesis Htr : sem_transpose_spec A sem op_type.
+  Variable F : string -> list nat -> list A -> A.
+  Hypothesis Hpw : sem_pointwise_spec_a A sem op_type F.
+  Variable Fcl : list nat -> V -> A -> A.
+  Hypothesis Hcl : sem_castlike_spec_n A sem op_type Fcl.
+  Hypothesis Hcl_type : castlike_type_only A Fcl.
+  Hypothesis Hacc : sem_accepts_spec_a A sem op_type.
+  Notation evalg := (eval V sem).
+  Notation refinesg := (refines V teq sem).
+
+  (* SSA, one-element flags true, and no genuine broadcasting between multi-element operands of an elementwise node *)
+  Definition tadmissible_u (g : tgraph) (e : env V) : Prop := tadmissible A sem g e /\ uniform_operands A sem g e.
+
+  Theorem transpose_pair_action_sound_all g act e : tadmissible_u g e -> decide_step g = Some act -> proved_kind_all g act = true ->
+    refinesg (tg_graph g) (tg_graph (apply_taction g act)) e.
+  Proof.
+    intros [Hadm Huni] Hdec Hk.
+    assert (Hold : proved_kind act = true -> refinesg (tg_graph g) (tg_graph (apply_taction g act)) e).
+    { intro Hk'. exact (transpose_pair_action_sound A sem sem_proper Htr F (spec_a_n A sem op_type F Hpw) Fcl Hcl Hcl_type
+                          (accepts_a_n A sem op_type Hacc) g act e Hadm Hdec Hk'). }
+    destruct act as [st|f|d|a|src a0 b]; try (apply Hold; exact Hk).
+    - (* Add chain *)
+      unfold decide_step in Hdec. destruct (first_some (decide_add g) (tg_nodes g)) as [st'|] eqn:Efs.
+      2:{ destruct (first_some (decide_forest g) (tg_nodes g)); [discriminate|]. destruct (first_some (decide_dag g) (tg_nodes g)); [discriminate|].
+          apply first_some_spec in Hdec as (T1 & _ & Hd). apply decide_D_kind in Hd. contradiction. }
+      injection Hdec as <-. apply first_some_spec in Efs as (start & Hstart & Hd).
+      destruct (decide_add_facts g start st' Hstart Hd) as (p & q & Haf).
+      intros o Hrun. assert (Hev : exists ef, evalg (tg_nodes g) e = Some ef).
+      { unfold run in Hrun. simpl in Hrun. destruct (evalg (tg_nodes g) e); [eauto|discriminate]. }
+      destruct Hev as [ef Hev].
+      exact (add_run A sem sem_proper Htr F Hpw Fcl Hcl Hcl_type Hacc g st' p q e ef Haf Hadm Huni Hev o Hrun).
+    - (* forest *)
+      unfold decide_step in Hdec. destruct (first_some (decide_add g) (tg_nodes g)); [discriminate|].
+      destruct (first_some (decide_forest g) (tg_nodes g)) as [f'|] eqn:Efs.
+      2:{ destruct (first_some (decide_dag g) (tg_nodes g)); [discriminate|].
+          apply first_some_spec in Hdec as (T1 & _ & Hd). apply decide_D_kind in Hd. contradiction. }
+      injection Hdec as <-. apply first_some_spec in Efs as (t2 & Ht2 & Hd).
+      destruct (decide_forest_facts g t2 f' Hd) as (v0 & p & q & Hff).
+      intros o Hrun. assert (Hev : exists ef, evalg (tg_nodes g) e = Some ef).
+      { unfold run in Hrun. simpl in Hrun. destruct (evalg (tg_nodes g) e); [eauto|discriminate]. }
+      destruct Hev as [ef Hev]. simpl in Hk.
+      exact (forest_run A sem sem_proper Htr F Hpw Fcl Hcl Hcl_type Hacc g t2 f' v0 p q e ef Hff Hadm Huni Hev Hk o Hrun).
+  Qed.
+
+  Fixpoint tadmissible_along_all (fuel : nat) (g : tgraph) (e : env V) : Prop :=
+    tadmissible_u g e /\
+    match fuel with
+    | O => True
+    | S k => match decide_step g with
+             | Some act => proved_kind_all g act = true /\ tadmissible_along_all k (apply_taction g act) e
+             | None => True
+             end
+    end.
+
+  Theorem transpose_pair_pass_sound_all : forall fuel g e, tadmissible_along_all fuel g e ->
+    refinesg (tg_graph g) (tg_graph (transpose_pair_pass fuel g)) e.
+  Proof.
+    induction fuel as [|k IH]; simpl; intros g e [Hadm Hrest].
+    - apply (refines_refl V teq (@teq_refl A) sem).
+    - unfold transpose_pair_step. destruct (decide_step g) as [act|] eqn:Ed; simpl.
+      + destruct Hrest as [Hk Hrest]. eapply (refines_trans V teq (@teq_trans A) sem).
+        * apply (transpose_pair_action_sound_all g act e Hadm Ed Hk).
+        * apply IH. exact Hrest.
+      + apply (refines_refl V teq (@teq_refl A) sem).
+  Qed.
+End AllKinds.
+
+(* non-vacuity: a forest (two transposed inputs, Mul and Relu, one inverse Transpose) and an Add chain are folded *)
+Definition ex_forest : tgraph :=
+  mkTG [mkNode "Transpose" [1; 1; 0] [1] [] [3]; mkNode "Transpose" [1; 1; 0] [2] [] [4]; mkNode "Mul" [] [3; 4] [] [5];
+        mkNode "Relu" [] [5] [] [6]; mkNode "Transpose" [1; 1; 0] [6] [] [7]] [7] (fun _ => false).
+Example forest_folded :
+  tg_nodes (transpose_pair_pass 5 ex_forest) = [mkNode "Mul" [] [1; 2] [] [5]; mkNode "Relu" [] [5] [] [6]]
+  /\ tg_outputs (transpose_pair_pass 5 ex_forest) = [6]
+  /\ option_map (proved_kind_all ex_forest) (decide_step ex_forest) = Some true /\ pass_trace 5 ex_forest = [2].
+Proof. vm_compute. auto. Qed.
+Definition ex_addchain : tgraph :=
+  mkTG [mkNode "Transpose" [1; 1; 0] [1] [] [3]; mkNode "Transpose" [1; 1; 0] [2] [] [4]; mkNode "Add" [] [3; 4] [] [5];
+        mkNode "Transpose" [1; 1; 0] [5] [] [7]] [7] (fun _ => false).
+Example addchain_folded :
+  tg_nodes (transpose_pair_pass 5 ex_addchain) = [mkNode "Transpose" [1; 1; 0] [1] [] [3]; mkNode "Transpose" [1; 1; 0] [2] [] [4]; mkNode "Add" [] [1; 2] [] [5]]
+  /\ tg_outputs (transpose_pair_pass 5 ex_addchain) = [5] /\ pass_trace 5 ex_addchain = [1].
+Proof. vm_compute. auto. Qed.
